@@ -211,3 +211,31 @@ def per(p: Any, name: str) -> Any:
 
 def period_time_ns(p: Any) -> Any:
     return per(p, "hours") * NPH + per(p, "minutes") * NPM + per(p, "seconds") * NPS + per(p, "milliseconds") * NPMS + per(p, "ticks") * NPT + per(p, "nanoseconds")
+
+
+# ---- OffsetTime / OffsetDateTime
+OT_SHIFT = 1 << 47
+
+
+def ot_word(t: Any) -> Any:
+    return fld(t, "_OffsetTime__nanoseconds_and_offset")
+
+
+def ot_n(t: Any) -> Any:
+    return ot_word(t) % OT_SHIFT
+
+
+def ot_off(t: Any) -> Any:
+    return ot_word(t) // OT_SHIFT
+
+
+def inv_offset_time(t: Any) -> Any:
+    return And(isinst(t, "OffsetTime"), ot_n(t) >= 0, ot_n(t) < NPD, ot_off(t) >= -OFFSET_MAX_SECONDS, ot_off(t) <= OFFSET_MAX_SECONDS)
+
+
+def odt_date(x: Any) -> Any:
+    return fld(x, "_OffsetDateTime__local_date")
+
+
+def odt_ot(x: Any) -> Any:
+    return fld(x, "_OffsetDateTime__offset_time")
